@@ -169,7 +169,10 @@ var (
 	osPool   = []string{"linux", "darwin", "windows", "beos", "linu", "linux ", "Linux", ""}
 	archPool = []string{"amd64", "arm64", "386", "amd6", "amd64p", "AMD64", ""}
 	goPool   = []string{"go1.21.0", "go1.22.1", "go1.23rc1", "go1.21", "go1.22.10", "devel", ""}
-	progPool = []string{"cmd/go", "golang.org/x/tools/gopls", "cmd/compile", "cmd/g", "cmd/go2", "gopls", "",
+	// the first four are the "core" programs configurations are built from; the fourth has a base
+	// name with the prefix the uploader gives its own local.<week>.json reports
+	progPool = []string{"cmd/go", "golang.org/x/tools/gopls", "cmd/compile", "example.com/tools/local.agent", "cmd/g", "cmd/go2", "gopls", "",
+		"example.com/local.", "local.json/x",
 		// different programs with the SAME base name as an approved one (count file names carry only path.Base)
 		"example.com/fork/gopls", "example.com/x/go", "other/compile"}
 	verPool = []string{"go1.21.0", "go1.22.1", "v0.14.0", "v0.15.0", "v0.14", "v0.14.00", "devel", ""}
@@ -178,6 +181,8 @@ var (
 		"foo", "bar", "foo2", "main/x", "gopls/bug", "chart:{a,b,c}", "chart:{a}", "c:{a,,b}", "c:{a,a}",
 		"c:{a,b", "c:{a,b}}", "c:{}", "c{x,y}", "{p,q}", "c:{a{b,c}", "c:{a},d}", "d:{1,2,3}", "d:", "e:{x}tail",
 		"chart:a", "stk", "gopls/client:{vscode,vim,other}", "go/goos:{linux,darwin}", "",
+		// chart:bucket counters listed on their own, without a bucket list
+		"tool:x", "gopls/editor:vim", "go/arch:amd64",
 	}
 	stkCfgPool = []string{"stk", "stk2", "foo", "chart:a", "crash/crash", "gopls/bug", "c:{a,a}", "main/x", ""}
 	framePool  = []string{"main.f:1", "main.g:+2", "runtime.goexit:0", "a/b.(*T).M:12", "x", ""}
@@ -277,7 +282,7 @@ func GenConfig(r *Rand, x float64) *telemetry.UploadConfig {
 		if i > 0 && r.Chance(25) {
 			p.Name = cfg.Programs[r.Intn(i)].Name // duplicate program entry
 		} else {
-			p.Name = Pick(r, progPool[:3])
+			p.Name = Pick(r, progPool[:4])
 			if r.Chance(8) {
 				p.Name = Pick(r, progPool)
 			}
@@ -749,7 +754,7 @@ func GenSharedNamesWeek(r *Rand, x float64) (*telemetry.UploadConfig, []FileSpec
 		GoVersion: subset(r, goPool[:3], 1+r.Intn(2)),
 	}
 	cfg.SampleRate = Pick(r, []float64{0, 0, 1})
-	names := []string{"cmd/go", "golang.org/x/tools/gopls", "cmd/compile"}
+	names := []string{"cmd/go", "golang.org/x/tools/gopls", "cmd/compile", "example.com/tools/local.agent"}
 	// shuffle
 	for i := len(names) - 1; i > 0; i-- {
 		j := r.Intn(i + 1)
@@ -759,7 +764,7 @@ func GenSharedNamesWeek(r *Rand, x float64) (*telemetry.UploadConfig, []FileSpec
 	names = names[:np]
 	common := Pick(r, verPool[:4])
 	stackTitles := subset(r, []string{"stk", "crash/crash", "gopls/bug", "foo", "main/x"}, 1+r.Intn(2))
-	counterNames := subset(r, []string{"foo", "chart:a", "main/x", "bar", "gopls/bug"}, 1+r.Intn(2))
+	counterNames := subset(r, []string{"foo", "chart:a", "main/x", "bar", "gopls/bug", "tool:x", "gopls/editor:vim"}, 1+r.Intn(2))
 	cfgName := func(n string) string {
 		if n == "chart:a" {
 			return "chart:{a,b,c}"
